@@ -114,6 +114,9 @@ fn real_main() {
         if p == "C15" { let d = r7::address_session_values(&mut ctx, p); props_validate2::check_passthrough(&mut ctx, d); }
         if ["C05", "C11"].contains(&p) { r7::duplicate_case_requirement_histories(&mut ctx, p); }
         if ["C13", "C14"].contains(&p) { r7::long_signature_behind_failing_lookup(&mut ctx, p); }
+        // stages added after the tenth (small) round
+        if ["C04", "C16"].contains(&p) { r7::same_month_days_and_early_years(&mut ctx, p); }
+        if ["C08", "C15"].contains(&p) { r7::empty_principal_accepts(&mut ctx, p); }
         if ["C16", "C19", "C13"].contains(&p) { r7::malformed_amz_date_beside_date(&mut ctx, p); }
         if ["C08", "C16"].contains(&p) { r7::tokens_and_damaged_dates(&mut ctx, p); }
         if ["C13", "C19"].contains(&p) { r7::many_auth_items(&mut ctx, p); }
